@@ -21,6 +21,9 @@ RULE = (
     "format_code on the small alphabet; thorough: format_code on all) rewrite it, original and result are executed. "
     "non-trivial = literal_value returned a value / the consumer changed the text"
 )
+RULE += (" depth 1 also contains EVERY public callable of the builtins module (minus those unsafe to call inside the harness, and id/hash) with no argument, "
+         "7 atoms and 19 producers (one-shot iterators, super(), object(), exceptions, types), and two-argument calls of 13 builtins; values without value "
+         "equality are compared by type, texts spelling an address are not compared.")
 ASSUMPTIONS = [
     "equality is type(a) is type(b) and a == b; identity tests between non-singleton literals are not enumerated",
     "literal_value may always answer 'unknown' (ValueError); only a value or another exception carries an obligation",
